@@ -1,0 +1,221 @@
+//go:build verif
+
+// Contracts for the verification machinery in /verif (govc). This file is only compiled with -tags verif;
+// it adds no behaviour to the package. Syntax: see /verif/DESIGN.md, Appendix A.
+package singleapp
+
+// verifAssume / verifAssert are the harness primitives: govc treats them as assumption and obligation;
+// natively (replays) a violated assertion panics with its label.
+func verifAssume(c bool) {
+	if !c {
+		panic("verifAssume: precondition of the harness not met")
+	}
+}
+
+func verifAssert(label string, c bool) {
+	if !c {
+		panic("verifAssert violated: " + label)
+	}
+}
+
+// ---- C17: singleapp.AppendableFile as a byte log (single_app.go) --------------------------------------------------
+//
+// Representation invariant (established by Open, kept by every method). The contracts below spell it out instead of
+// calling spec_wf (ENGINE: a spec function over a pointer is an uninterpreted function of the whole heap, which made
+// every query of a function with calls time out); spec_wf / spec_size are the same text, kept for replays and readers.
+//   - buffer cursors:  0 <= flushed <= unwritten <= len(writeBuffer); a writable file has a non-empty buffer
+//   - fileOffset counts the flushed-but-unsynced prefix of the buffer: fileOffset >= flushed
+//   - without retryable sync the buffer is never full of flushed bytes (a complete flush frees it; a failed one is
+//     short, see trusted (*os.File).Write `short`): flushed == 0 || flushed < len(writeBuffer); `write` needs it to
+//     make progress after flush()
+//   - the log is smaller than spec_maxLog = 2^62 bytes (physical assumption; all offset arithmetic is int64)
+const spec_maxLog = int64(1) << 62
+
+func spec_wf(a *AppendableFile) bool {
+	return a.f != nil && 0 <= a.wbufFlushedOffset && a.wbufFlushedOffset <= a.wbufUnwrittenOffset &&
+		a.wbufUnwrittenOffset <= len(a.writeBuffer) && (a.readOnly || len(a.writeBuffer) > 0) &&
+		a.fileOffset >= int64(a.wbufFlushedOffset) && a.fileOffset <= spec_maxLog && spec_size(a) <= spec_maxLog &&
+		(a.retryableSync || a.wbufFlushedOffset == 0 || a.wbufFlushedOffset < len(a.writeBuffer))
+}
+
+// spec_sz: the size as a function of the three cursors. Deliberately written with a (semantically redundant) recursive
+// branch: the engine expands non-recursive spec functions as macros, recursive ones stay uninterpreted functions with
+// their definition unfolded once per occurring term. As an uninterpreted function "size unchanged / grown by n" is a
+// congruence problem; as a macro the same facts are equalities between differently associated 64-bit sums over several
+// heap versions, which z3 does not decide within minutes. Both branches compute fileOffset + (unwritten - flushed).
+func spec_sz(fileOffset int64, unwritten, flushed int) int64 {
+	if unwritten < flushed { // never under the representation invariant
+		return spec_sz(fileOffset-int64(flushed-unwritten), 0, 0)
+	}
+	return fileOffset + int64(unwritten-flushed)
+}
+
+// spec_size: length of the abstract log = bytes in the file below fileOffset + buffered bytes not yet written.
+func spec_size(a *AppendableFile) int64 {
+	return a.fileOffset + int64(a.wbufUnwrittenOffset-a.wbufFlushedOffset)
+}
+
+//@ func (*Options).Validate
+//@   ensures ok: r0 == nil ==> opts != nil && opts.readBufferSize > 0 && (opts.readOnly || len(opts.writeBuffer) > 0) && opts.preallocSize >= 0
+//@   assigns nothing
+
+// Open establishes the invariant (header parsing itself is outside C17: only the cursor / offset part is stated).
+// `wfoff` FAILS on the unchanged tree: fileOffset = (size of the file) - fileBaseOffset, and fileBaseOffset = 4 + the
+// metadata length DECLARED in the header, which bufio.Reader.Read may not have delivered in full (short file).
+//@ func Open
+//@   ensures nonnil: r1 == nil ==> r0 != nil
+//@   ensures wfbuf: r1 == nil ==> r0.f != nil && r0.wbufFlushedOffset == 0 && r0.wbufUnwrittenOffset == 0 && (r0.readOnly || len(r0.writeBuffer) > 0)
+//@   ensures wfoff: r1 == nil ==> r0.fileOffset >= 0
+
+//@ func (*AppendableFile).offset
+//@   requires aof.f != nil && 0 <= aof.wbufFlushedOffset && aof.wbufFlushedOffset <= aof.wbufUnwrittenOffset && aof.wbufUnwrittenOffset <= len(aof.writeBuffer) && (aof.readOnly || len(aof.writeBuffer) > 0) && aof.fileOffset >= int64(aof.wbufFlushedOffset) && aof.fileOffset <= spec_maxLog && aof.fileOffset + int64(aof.wbufUnwrittenOffset - aof.wbufFlushedOffset) <= spec_maxLog && (aof.retryableSync || aof.wbufFlushedOffset == 0 || aof.wbufFlushedOffset < len(aof.writeBuffer))
+//@   ensures def: r0 == spec_sz(aof.fileOffset, aof.wbufUnwrittenOffset, aof.wbufFlushedOffset)
+//@   ensures nonneg: 0 <= r0 && r0 <= spec_maxLog
+//@   assigns nothing
+
+//@ func (*AppendableFile).seekIfRequired
+//@   requires aof.f != nil
+//@   ensures cfg: aof.f == old(aof.f) && aof.readOnly == old(aof.readOnly) && aof.retryableSync == old(aof.retryableSync) && aof.autoSync == old(aof.autoSync) && aof.writeBuffer == old(aof.writeBuffer) && aof.compressionFormat == old(aof.compressionFormat) && aof.closed == old(aof.closed)
+//@   ensures same: aof.fileOffset == old(aof.fileOffset) && aof.wbufFlushedOffset == old(aof.wbufFlushedOffset) && aof.wbufUnwrittenOffset == old(aof.wbufUnwrittenOffset)
+//@   assigns aof
+
+// flush: the log (here: its length) is the same in every outcome, also after a short or failed write.
+//@ func (*AppendableFile).flush
+//@   requires aof.f != nil && 0 <= aof.wbufFlushedOffset && aof.wbufFlushedOffset <= aof.wbufUnwrittenOffset && aof.wbufUnwrittenOffset <= len(aof.writeBuffer) && (aof.readOnly || len(aof.writeBuffer) > 0) && aof.fileOffset >= int64(aof.wbufFlushedOffset) && aof.fileOffset <= spec_maxLog && aof.fileOffset + int64(aof.wbufUnwrittenOffset - aof.wbufFlushedOffset) <= spec_maxLog && (aof.retryableSync || aof.wbufFlushedOffset == 0 || aof.wbufFlushedOffset < len(aof.writeBuffer))
+//@   ensures wfbuf: aof.f != nil && 0 <= aof.wbufFlushedOffset && aof.wbufFlushedOffset <= aof.wbufUnwrittenOffset && aof.wbufUnwrittenOffset <= len(aof.writeBuffer) && (aof.readOnly || len(aof.writeBuffer) > 0)
+//@   ensures wfoff: aof.fileOffset >= int64(aof.wbufFlushedOffset) && aof.fileOffset <= spec_maxLog
+//@   ensures wfmax: aof.fileOffset + int64(aof.wbufUnwrittenOffset - aof.wbufFlushedOffset) <= spec_maxLog
+//@   ensures wfnr: (aof.retryableSync || aof.wbufFlushedOffset == 0 || aof.wbufFlushedOffset < len(aof.writeBuffer))
+//@   ensures size: spec_sz(aof.fileOffset, aof.wbufUnwrittenOffset, aof.wbufFlushedOffset) == old(spec_sz(aof.fileOffset, aof.wbufUnwrittenOffset, aof.wbufFlushedOffset))
+//@   ensures cfg: aof.f == old(aof.f) && aof.readOnly == old(aof.readOnly) && aof.retryableSync == old(aof.retryableSync) && aof.autoSync == old(aof.autoSync) && aof.writeBuffer == old(aof.writeBuffer) && aof.compressionFormat == old(aof.compressionFormat) && aof.closed == old(aof.closed)
+//@   ensures done: r0 == nil ==> aof.wbufFlushedOffset == aof.wbufUnwrittenOffset
+//@   ensures freed: r0 == nil && !aof.retryableSync && old(aof.wbufUnwrittenOffset) != old(aof.wbufFlushedOffset) ==> aof.wbufFlushedOffset == 0 && aof.wbufUnwrittenOffset == 0
+//@   ensures unwritten: aof.retryableSync ==> aof.wbufUnwrittenOffset == old(aof.wbufUnwrittenOffset)
+//@   assigns aof
+
+// sync: same; a successful sync empties the buffer in both modes; a failed fsync in retryable mode keeps the bytes
+// buffered and rewinds fileOffset so that they are written again.
+//@ func (*AppendableFile).sync
+//@   requires aof.f != nil && 0 <= aof.wbufFlushedOffset && aof.wbufFlushedOffset <= aof.wbufUnwrittenOffset && aof.wbufUnwrittenOffset <= len(aof.writeBuffer) && (aof.readOnly || len(aof.writeBuffer) > 0) && aof.fileOffset >= int64(aof.wbufFlushedOffset) && aof.fileOffset <= spec_maxLog && aof.fileOffset + int64(aof.wbufUnwrittenOffset - aof.wbufFlushedOffset) <= spec_maxLog && (aof.retryableSync || aof.wbufFlushedOffset == 0 || aof.wbufFlushedOffset < len(aof.writeBuffer))
+//@   ensures wfbuf: aof.f != nil && 0 <= aof.wbufFlushedOffset && aof.wbufFlushedOffset <= aof.wbufUnwrittenOffset && aof.wbufUnwrittenOffset <= len(aof.writeBuffer) && (aof.readOnly || len(aof.writeBuffer) > 0)
+//@   ensures wfoff: aof.fileOffset >= int64(aof.wbufFlushedOffset) && aof.fileOffset <= spec_maxLog
+//@   ensures wfmax: aof.fileOffset + int64(aof.wbufUnwrittenOffset - aof.wbufFlushedOffset) <= spec_maxLog
+//@   ensures wfnr: (aof.retryableSync || aof.wbufFlushedOffset == 0 || aof.wbufFlushedOffset < len(aof.writeBuffer))
+//@   ensures size: spec_sz(aof.fileOffset, aof.wbufUnwrittenOffset, aof.wbufFlushedOffset) == old(spec_sz(aof.fileOffset, aof.wbufUnwrittenOffset, aof.wbufFlushedOffset))
+//@   ensures cfg: aof.f == old(aof.f) && aof.readOnly == old(aof.readOnly) && aof.retryableSync == old(aof.retryableSync) && aof.autoSync == old(aof.autoSync) && aof.writeBuffer == old(aof.writeBuffer) && aof.compressionFormat == old(aof.compressionFormat) && aof.closed == old(aof.closed)
+//@   ensures freed: r0 == nil && (aof.retryableSync || old(aof.wbufUnwrittenOffset) != old(aof.wbufFlushedOffset)) ==> aof.wbufFlushedOffset == 0 && aof.wbufUnwrittenOffset == 0
+//@   assigns aof
+
+// write: appends n bytes to the log (n == len(bs) unless an error is returned). The size bound of the invariant
+// (size <= spec_maxLog) follows from `grow`, `count` and `phys`; it is derived at the call site (Append: post wfmax)
+// because the same inequality inside the loop context timed out (z3 proves the bare arithmetic in 0.6 s).
+//@ func (*AppendableFile).write
+//@   requires aof.f != nil && 0 <= aof.wbufFlushedOffset && aof.wbufFlushedOffset <= aof.wbufUnwrittenOffset && aof.wbufUnwrittenOffset <= len(aof.writeBuffer) && (aof.readOnly || len(aof.writeBuffer) > 0) && aof.fileOffset >= int64(aof.wbufFlushedOffset) && aof.fileOffset <= spec_maxLog && aof.fileOffset + int64(aof.wbufUnwrittenOffset - aof.wbufFlushedOffset) <= spec_maxLog && (aof.retryableSync || aof.wbufFlushedOffset == 0 || aof.wbufFlushedOffset < len(aof.writeBuffer))
+//@   requires writable: !aof.readOnly
+//@   requires phys: spec_sz(aof.fileOffset, aof.wbufUnwrittenOffset, aof.wbufFlushedOffset) <= spec_maxLog - int64(len(bs))
+//@   ensures wfbuf: aof.f != nil && 0 <= aof.wbufFlushedOffset && aof.wbufFlushedOffset <= aof.wbufUnwrittenOffset && aof.wbufUnwrittenOffset <= len(aof.writeBuffer) && (aof.readOnly || len(aof.writeBuffer) > 0)
+//@   ensures wfoff: aof.fileOffset >= int64(aof.wbufFlushedOffset) && aof.fileOffset <= spec_maxLog
+//@   ensures wfnr: (aof.retryableSync || aof.wbufFlushedOffset == 0 || aof.wbufFlushedOffset < len(aof.writeBuffer))
+//@   ensures count: 0 <= n && n <= len(bs) && (err == nil ==> n == len(bs))
+//@   ensures grow: spec_sz(aof.fileOffset, aof.wbufUnwrittenOffset, aof.wbufFlushedOffset) == old(spec_sz(aof.fileOffset, aof.wbufUnwrittenOffset, aof.wbufFlushedOffset)) + int64(n)
+//@   ensures cfg: aof.f == old(aof.f) && aof.readOnly == old(aof.readOnly) && aof.retryableSync == old(aof.retryableSync) && aof.autoSync == old(aof.autoSync) && aof.writeBuffer == old(aof.writeBuffer) && aof.compressionFormat == old(aof.compressionFormat) && aof.closed == old(aof.closed)
+//@   assigns aof, aof.writeBuffer
+//@   loop 1 invariant buf: aof.f != nil && 0 <= aof.wbufFlushedOffset && aof.wbufFlushedOffset <= aof.wbufUnwrittenOffset && aof.wbufUnwrittenOffset <= len(aof.writeBuffer) && (aof.readOnly || len(aof.writeBuffer) > 0)
+//@   loop 1 invariant range: 0 <= n && n <= len(bs)
+//@   loop 1 invariant off: aof.fileOffset >= int64(aof.wbufFlushedOffset) && aof.fileOffset <= spec_maxLog
+//@   loop 1 invariant nr: (aof.retryableSync || aof.wbufFlushedOffset == 0 || aof.wbufFlushedOffset < len(aof.writeBuffer))
+//@   loop 1 invariant grow: spec_sz(aof.fileOffset, aof.wbufUnwrittenOffset, aof.wbufFlushedOffset) == old(spec_sz(aof.fileOffset, aof.wbufUnwrittenOffset, aof.wbufFlushedOffset)) + int64(n)
+//@   loop 1 invariant cfg: aof.f == old(aof.f) && aof.readOnly == old(aof.readOnly) && aof.retryableSync == old(aof.retryableSync) && aof.autoSync == old(aof.autoSync) && aof.writeBuffer == old(aof.writeBuffer) && aof.compressionFormat == old(aof.compressionFormat) && aof.closed == old(aof.closed)
+//@   loop 1 decreases len(bs) - n
+//@   loop 1 assigns aof, aof.writeBuffer
+
+// Append (uncompressed): returns the previous size as offset, the log grows by the n bytes written.
+//@ func (*AppendableFile).Append
+//@   requires aof.f != nil && 0 <= aof.wbufFlushedOffset && aof.wbufFlushedOffset <= aof.wbufUnwrittenOffset && aof.wbufUnwrittenOffset <= len(aof.writeBuffer) && (aof.readOnly || len(aof.writeBuffer) > 0) && aof.fileOffset >= int64(aof.wbufFlushedOffset) && aof.fileOffset <= spec_maxLog && aof.fileOffset + int64(aof.wbufUnwrittenOffset - aof.wbufFlushedOffset) <= spec_maxLog && (aof.retryableSync || aof.wbufFlushedOffset == 0 || aof.wbufFlushedOffset < len(aof.writeBuffer))
+//@   requires phys: spec_sz(aof.fileOffset, aof.wbufUnwrittenOffset, aof.wbufFlushedOffset) <= spec_maxLog - int64(len(bs)) - 4
+//@   ensures wfbuf: old(aof.compressionFormat) == 0 ==> aof.f != nil && 0 <= aof.wbufFlushedOffset && aof.wbufFlushedOffset <= aof.wbufUnwrittenOffset && aof.wbufUnwrittenOffset <= len(aof.writeBuffer) && (aof.readOnly || len(aof.writeBuffer) > 0)
+//@   ensures wfoff: old(aof.compressionFormat) == 0 ==> aof.fileOffset >= int64(aof.wbufFlushedOffset) && aof.fileOffset <= spec_maxLog
+//@   ensures wfmax: old(aof.compressionFormat) == 0 ==> aof.fileOffset + int64(aof.wbufUnwrittenOffset - aof.wbufFlushedOffset) <= spec_maxLog
+//@   ensures wfnr: old(aof.compressionFormat) == 0 ==> (aof.retryableSync || aof.wbufFlushedOffset == 0 || aof.wbufFlushedOffset < len(aof.writeBuffer))
+//@   ensures offdef: old(aof.compressionFormat) == 0 ==> !old(aof.closed) && !old(aof.readOnly) && len(bs) > 0 ==> off == old(spec_sz(aof.fileOffset, aof.wbufUnwrittenOffset, aof.wbufFlushedOffset))
+//@   ensures off: old(aof.compressionFormat) == 0 ==> err == nil ==> off == old(spec_sz(aof.fileOffset, aof.wbufUnwrittenOffset, aof.wbufFlushedOffset)) && off >= 0
+//@   ensures count: old(aof.compressionFormat) == 0 ==> 0 <= n && n <= len(bs)
+//@   ensures growoff: old(aof.compressionFormat) == 0 ==> !old(aof.closed) && !old(aof.readOnly) && len(bs) > 0 ==> spec_sz(aof.fileOffset, aof.wbufUnwrittenOffset, aof.wbufFlushedOffset) == off + int64(n)
+//@   ensures grow: old(aof.compressionFormat) == 0 ==> spec_sz(aof.fileOffset, aof.wbufUnwrittenOffset, aof.wbufFlushedOffset) == old(spec_sz(aof.fileOffset, aof.wbufUnwrittenOffset, aof.wbufFlushedOffset)) + int64(n)
+//@   ensures full: old(aof.compressionFormat) == 0 ==> err == nil ==> n == len(bs)
+//@   ensures cfg: old(aof.compressionFormat) == 0 ==> aof.f == old(aof.f) && aof.readOnly == old(aof.readOnly) && aof.retryableSync == old(aof.retryableSync) && aof.autoSync == old(aof.autoSync) && aof.writeBuffer == old(aof.writeBuffer) && aof.compressionFormat == old(aof.compressionFormat) && aof.closed == old(aof.closed)
+
+// SetOffset(o): truncates the log to o; error iff o is outside [0, size] (on an open writable file); a failed call
+// leaves the log unchanged.
+//@ func (*AppendableFile).SetOffset
+//@   requires aof.f != nil && 0 <= aof.wbufFlushedOffset && aof.wbufFlushedOffset <= aof.wbufUnwrittenOffset && aof.wbufUnwrittenOffset <= len(aof.writeBuffer) && (aof.readOnly || len(aof.writeBuffer) > 0) && aof.fileOffset >= int64(aof.wbufFlushedOffset) && aof.fileOffset <= spec_maxLog && aof.fileOffset + int64(aof.wbufUnwrittenOffset - aof.wbufFlushedOffset) <= spec_maxLog && (aof.retryableSync || aof.wbufFlushedOffset == 0 || aof.wbufFlushedOffset < len(aof.writeBuffer))
+//@   ensures wfbuf: aof.f != nil && 0 <= aof.wbufFlushedOffset && aof.wbufFlushedOffset <= aof.wbufUnwrittenOffset && aof.wbufUnwrittenOffset <= len(aof.writeBuffer) && (aof.readOnly || len(aof.writeBuffer) > 0)
+//@   ensures wfoff: aof.fileOffset >= int64(aof.wbufFlushedOffset) && aof.fileOffset <= spec_maxLog
+//@   ensures wfmax: aof.fileOffset + int64(aof.wbufUnwrittenOffset - aof.wbufFlushedOffset) <= spec_maxLog
+//@   ensures wfnr: (aof.retryableSync || aof.wbufFlushedOffset == 0 || aof.wbufFlushedOffset < len(aof.writeBuffer))
+//@   ensures ok: r0 == nil ==> 0 <= newOffset && newOffset <= old(spec_sz(aof.fileOffset, aof.wbufUnwrittenOffset, aof.wbufFlushedOffset)) && spec_sz(aof.fileOffset, aof.wbufUnwrittenOffset, aof.wbufFlushedOffset) == newOffset
+//@   ensures bad: r0 != nil ==> aof.fileOffset == old(aof.fileOffset) && aof.wbufFlushedOffset == old(aof.wbufFlushedOffset) && aof.wbufUnwrittenOffset == old(aof.wbufUnwrittenOffset) && aof.seekRequired == old(aof.seekRequired)
+//@   ensures iff: !aof.closed && !aof.readOnly ==> ((r0 != nil) == (newOffset < 0 || newOffset > old(spec_sz(aof.fileOffset, aof.wbufUnwrittenOffset, aof.wbufFlushedOffset))))
+//@   ensures neg: newOffset < 0 ==> r0 != nil
+//@   ensures cfg: aof.f == old(aof.f) && aof.readOnly == old(aof.readOnly) && aof.retryableSync == old(aof.retryableSync) && aof.autoSync == old(aof.autoSync) && aof.writeBuffer == old(aof.writeBuffer) && aof.compressionFormat == old(aof.compressionFormat) && aof.closed == old(aof.closed)
+//@   assigns aof
+
+//@ func (*AppendableFile).Size
+//@   requires aof.f != nil && 0 <= aof.wbufFlushedOffset && aof.wbufFlushedOffset <= aof.wbufUnwrittenOffset && aof.wbufUnwrittenOffset <= len(aof.writeBuffer) && (aof.readOnly || len(aof.writeBuffer) > 0) && aof.fileOffset >= int64(aof.wbufFlushedOffset) && aof.fileOffset <= spec_maxLog && aof.fileOffset + int64(aof.wbufUnwrittenOffset - aof.wbufFlushedOffset) <= spec_maxLog && (aof.retryableSync || aof.wbufFlushedOffset == 0 || aof.wbufFlushedOffset < len(aof.writeBuffer))
+//@   ensures size: r1 == nil ==> r0 == spec_sz(aof.fileOffset, aof.wbufUnwrittenOffset, aof.wbufFlushedOffset)
+//@   ensures nonneg: r1 == nil ==> r0 >= 0
+//@   ensures same: aof.fileOffset == old(aof.fileOffset) && aof.wbufFlushedOffset == old(aof.wbufFlushedOffset) && aof.wbufUnwrittenOffset == old(aof.wbufUnwrittenOffset) && aof.seekRequired == old(aof.seekRequired) && aof.f == old(aof.f) && aof.readOnly == old(aof.readOnly) && aof.retryableSync == old(aof.retryableSync) && aof.autoSync == old(aof.autoSync) && aof.writeBuffer == old(aof.writeBuffer) && aof.compressionFormat == old(aof.compressionFormat) && aof.closed == old(aof.closed)
+
+//@ func (*AppendableFile).Offset
+//@   requires aof.f != nil && 0 <= aof.wbufFlushedOffset && aof.wbufFlushedOffset <= aof.wbufUnwrittenOffset && aof.wbufUnwrittenOffset <= len(aof.writeBuffer) && (aof.readOnly || len(aof.writeBuffer) > 0) && aof.fileOffset >= int64(aof.wbufFlushedOffset) && aof.fileOffset <= spec_maxLog && aof.fileOffset + int64(aof.wbufUnwrittenOffset - aof.wbufFlushedOffset) <= spec_maxLog && (aof.retryableSync || aof.wbufFlushedOffset == 0 || aof.wbufFlushedOffset < len(aof.writeBuffer))
+//@   ensures size: r0 == spec_sz(aof.fileOffset, aof.wbufUnwrittenOffset, aof.wbufFlushedOffset)
+//@   ensures nonneg: r0 >= 0
+//@   ensures same: aof.fileOffset == old(aof.fileOffset) && aof.wbufFlushedOffset == old(aof.wbufFlushedOffset) && aof.wbufUnwrittenOffset == old(aof.wbufUnwrittenOffset) && aof.seekRequired == old(aof.seekRequired) && aof.f == old(aof.f) && aof.readOnly == old(aof.readOnly) && aof.retryableSync == old(aof.retryableSync) && aof.autoSync == old(aof.autoSync) && aof.writeBuffer == old(aof.writeBuffer) && aof.compressionFormat == old(aof.compressionFormat) && aof.closed == old(aof.closed)
+
+// DiscardUpto on a single file never removes anything: the log is unchanged; discarding beyond the end is an error.
+//@ func (*AppendableFile).DiscardUpto
+//@   requires aof.f != nil && 0 <= aof.wbufFlushedOffset && aof.wbufFlushedOffset <= aof.wbufUnwrittenOffset && aof.wbufUnwrittenOffset <= len(aof.writeBuffer) && (aof.readOnly || len(aof.writeBuffer) > 0) && aof.fileOffset >= int64(aof.wbufFlushedOffset) && aof.fileOffset <= spec_maxLog && aof.fileOffset + int64(aof.wbufUnwrittenOffset - aof.wbufFlushedOffset) <= spec_maxLog && (aof.retryableSync || aof.wbufFlushedOffset == 0 || aof.wbufFlushedOffset < len(aof.writeBuffer))
+//@   ensures same: aof.fileOffset == old(aof.fileOffset) && aof.wbufFlushedOffset == old(aof.wbufFlushedOffset) && aof.wbufUnwrittenOffset == old(aof.wbufUnwrittenOffset) && aof.seekRequired == old(aof.seekRequired) && aof.f == old(aof.f) && aof.readOnly == old(aof.readOnly) && aof.retryableSync == old(aof.retryableSync) && aof.autoSync == old(aof.autoSync) && aof.writeBuffer == old(aof.writeBuffer) && aof.compressionFormat == old(aof.compressionFormat) && aof.closed == old(aof.closed)
+//@   ensures bound: r0 == nil ==> off <= spec_sz(aof.fileOffset, aof.wbufUnwrittenOffset, aof.wbufFlushedOffset)
+//@   ensures iff: !aof.closed ==> ((r0 != nil) == (off > spec_sz(aof.fileOffset, aof.wbufUnwrittenOffset, aof.wbufFlushedOffset)))
+
+//@ func (*AppendableFile).Flush
+//@   requires aof.f != nil && 0 <= aof.wbufFlushedOffset && aof.wbufFlushedOffset <= aof.wbufUnwrittenOffset && aof.wbufUnwrittenOffset <= len(aof.writeBuffer) && (aof.readOnly || len(aof.writeBuffer) > 0) && aof.fileOffset >= int64(aof.wbufFlushedOffset) && aof.fileOffset <= spec_maxLog && aof.fileOffset + int64(aof.wbufUnwrittenOffset - aof.wbufFlushedOffset) <= spec_maxLog && (aof.retryableSync || aof.wbufFlushedOffset == 0 || aof.wbufFlushedOffset < len(aof.writeBuffer))
+//@   ensures wfbuf: aof.f != nil && 0 <= aof.wbufFlushedOffset && aof.wbufFlushedOffset <= aof.wbufUnwrittenOffset && aof.wbufUnwrittenOffset <= len(aof.writeBuffer) && (aof.readOnly || len(aof.writeBuffer) > 0)
+//@   ensures wfoff: aof.fileOffset >= int64(aof.wbufFlushedOffset) && aof.fileOffset <= spec_maxLog
+//@   ensures wfmax: aof.fileOffset + int64(aof.wbufUnwrittenOffset - aof.wbufFlushedOffset) <= spec_maxLog
+//@   ensures wfnr: (aof.retryableSync || aof.wbufFlushedOffset == 0 || aof.wbufFlushedOffset < len(aof.writeBuffer))
+//@   ensures size: spec_sz(aof.fileOffset, aof.wbufUnwrittenOffset, aof.wbufFlushedOffset) == old(spec_sz(aof.fileOffset, aof.wbufUnwrittenOffset, aof.wbufFlushedOffset))
+//@   ensures cfg: aof.f == old(aof.f) && aof.readOnly == old(aof.readOnly) && aof.retryableSync == old(aof.retryableSync) && aof.autoSync == old(aof.autoSync) && aof.writeBuffer == old(aof.writeBuffer) && aof.compressionFormat == old(aof.compressionFormat) && aof.closed == old(aof.closed)
+
+//@ func (*AppendableFile).Sync
+//@   requires aof.f != nil && 0 <= aof.wbufFlushedOffset && aof.wbufFlushedOffset <= aof.wbufUnwrittenOffset && aof.wbufUnwrittenOffset <= len(aof.writeBuffer) && (aof.readOnly || len(aof.writeBuffer) > 0) && aof.fileOffset >= int64(aof.wbufFlushedOffset) && aof.fileOffset <= spec_maxLog && aof.fileOffset + int64(aof.wbufUnwrittenOffset - aof.wbufFlushedOffset) <= spec_maxLog && (aof.retryableSync || aof.wbufFlushedOffset == 0 || aof.wbufFlushedOffset < len(aof.writeBuffer))
+//@   ensures wfbuf: aof.f != nil && 0 <= aof.wbufFlushedOffset && aof.wbufFlushedOffset <= aof.wbufUnwrittenOffset && aof.wbufUnwrittenOffset <= len(aof.writeBuffer) && (aof.readOnly || len(aof.writeBuffer) > 0)
+//@   ensures wfoff: aof.fileOffset >= int64(aof.wbufFlushedOffset) && aof.fileOffset <= spec_maxLog
+//@   ensures wfmax: aof.fileOffset + int64(aof.wbufUnwrittenOffset - aof.wbufFlushedOffset) <= spec_maxLog
+//@   ensures wfnr: (aof.retryableSync || aof.wbufFlushedOffset == 0 || aof.wbufFlushedOffset < len(aof.writeBuffer))
+//@   ensures size: spec_sz(aof.fileOffset, aof.wbufUnwrittenOffset, aof.wbufFlushedOffset) == old(spec_sz(aof.fileOffset, aof.wbufUnwrittenOffset, aof.wbufFlushedOffset))
+//@   ensures cfg: aof.f == old(aof.f) && aof.readOnly == old(aof.readOnly) && aof.retryableSync == old(aof.retryableSync) && aof.autoSync == old(aof.autoSync) && aof.writeBuffer == old(aof.writeBuffer) && aof.compressionFormat == old(aof.compressionFormat) && aof.closed == old(aof.closed)
+
+// readAt: at most len(bs) bytes, never past the end of the log (`bound`), complete unless an error is returned.
+// `bound` is the part of "reads return the bytes last written" that is visible without file contents: bytes beyond
+// the log's end (stale bytes of the physical file after a rewind) must never be returned.
+// `sep`: a []byte never shares its object with the AppendableFile struct (Go type safety; the engine's heap is untyped
+// and would otherwise let the file read into bs overwrite aof's own fields).
+//@ func (*AppendableFile).readAt
+//@   requires aof.f != nil && 0 <= aof.wbufFlushedOffset && aof.wbufFlushedOffset <= aof.wbufUnwrittenOffset && aof.wbufUnwrittenOffset <= len(aof.writeBuffer) && (aof.readOnly || len(aof.writeBuffer) > 0) && aof.fileOffset >= int64(aof.wbufFlushedOffset) && aof.fileOffset <= spec_maxLog && aof.fileOffset + int64(aof.wbufUnwrittenOffset - aof.wbufFlushedOffset) <= spec_maxLog && (aof.retryableSync || aof.wbufFlushedOffset == 0 || aof.wbufFlushedOffset < len(aof.writeBuffer))
+//@   requires sep: !sameobj(bs, aof)
+//@   ensures count: 0 <= n && n <= len(bs)
+//@   ensures full: err == nil ==> n == len(bs)
+//@   ensures bound: off >= 0 && off <= spec_sz(aof.fileOffset, aof.wbufUnwrittenOffset, aof.wbufFlushedOffset) ==> int64(n) <= spec_sz(aof.fileOffset, aof.wbufUnwrittenOffset, aof.wbufFlushedOffset) - off
+//@   ensures none: off < 0 || off > spec_sz(aof.fileOffset, aof.wbufUnwrittenOffset, aof.wbufFlushedOffset) ==> n == 0 && err != nil
+//@   ensures same: aof.fileOffset == old(aof.fileOffset) && aof.wbufFlushedOffset == old(aof.wbufFlushedOffset) && aof.wbufUnwrittenOffset == old(aof.wbufUnwrittenOffset) && aof.seekRequired == old(aof.seekRequired) && aof.f == old(aof.f) && aof.readOnly == old(aof.readOnly) && aof.retryableSync == old(aof.retryableSync) && aof.autoSync == old(aof.autoSync) && aof.writeBuffer == old(aof.writeBuffer) && aof.compressionFormat == old(aof.compressionFormat) && aof.closed == old(aof.closed)
+//@   assigns bs
+
+//@ func (*AppendableFile).ReadAt
+//@   requires aof.f != nil && 0 <= aof.wbufFlushedOffset && aof.wbufFlushedOffset <= aof.wbufUnwrittenOffset && aof.wbufUnwrittenOffset <= len(aof.writeBuffer) && (aof.readOnly || len(aof.writeBuffer) > 0) && aof.fileOffset >= int64(aof.wbufFlushedOffset) && aof.fileOffset <= spec_maxLog && aof.fileOffset + int64(aof.wbufUnwrittenOffset - aof.wbufFlushedOffset) <= spec_maxLog && (aof.retryableSync || aof.wbufFlushedOffset == 0 || aof.wbufFlushedOffset < len(aof.writeBuffer))
+//@   requires sep: !sameobj(bs, aof)
+//@   ensures count: old(aof.compressionFormat) == 0 ==> 0 <= n && n <= len(bs)
+//@   ensures full: old(aof.compressionFormat) == 0 ==> err == nil ==> n == len(bs)
+//@   ensures bound: old(aof.compressionFormat) == 0 ==> off >= 0 && off <= spec_sz(aof.fileOffset, aof.wbufUnwrittenOffset, aof.wbufFlushedOffset) ==> int64(n) <= spec_sz(aof.fileOffset, aof.wbufUnwrittenOffset, aof.wbufFlushedOffset) - off
+//@   ensures same: old(aof.compressionFormat) == 0 ==> aof.fileOffset == old(aof.fileOffset) && aof.wbufFlushedOffset == old(aof.wbufFlushedOffset) && aof.wbufUnwrittenOffset == old(aof.wbufUnwrittenOffset) && aof.seekRequired == old(aof.seekRequired) && aof.f == old(aof.f) && aof.readOnly == old(aof.readOnly) && aof.retryableSync == old(aof.retryableSync) && aof.autoSync == old(aof.autoSync) && aof.writeBuffer == old(aof.writeBuffer) && aof.compressionFormat == old(aof.compressionFormat) && aof.closed == old(aof.closed)
